@@ -152,6 +152,22 @@ class Eval:
         if path == "core::num::<impl usize>::overflowing_mul":
             prod = args[0] * args[1]
             return Tup([prod, Cond("atom", atom="ovf(%r)" % (prod,))])
+        if path in ("core::num::<impl usize>::checked_mul", "core::num::<impl usize>::checked_add", "core::num::<impl usize>::checked_sub") and all(isinstance(a, Poly) for a in args):
+            if name == "checked_mul":
+                prod = args[0] * args[1]
+                return Gamma(Cond("natom", atom="ovf(%r)" % (prod,)), Adt("Option", "Some", [prod]), Adt("Option", "None", []))
+            if name == "checked_add":
+                return Adt("Option", "Some", [args[0] + args[1]])        # language-level overflow is out of scope here
+            return Gamma(Cond(">=", args[0] - args[1]), Adt("Option", "Some", [args[0] - args[1]]), Adt("Option", "None", []))
+        if name == "branch" and "Try" in path:
+            v = args[0]
+            if isinstance(v, Gamma):
+                return Gamma(v.cond, Adt("ControlFlow", "Continue", [v.a.f[0]] if v.a.variant == "Some" else []), Adt("ControlFlow", "Break", [Adt("Option", "None", [])]))
+            if isinstance(v, Adt) and v.variant == "Some": return Adt("ControlFlow", "Continue", [v.f[0]])
+            if isinstance(v, Adt) and v.variant == "None": return Adt("ControlFlow", "Break", [Adt("Option", "None", [])])
+            raise Inconclusive("branch of %r" % (v,))
+        if name == "from_residual":
+            return Adt("Option", "None", [])
         if fn.get("trait") in ("core::iter::Iterator", "core::iter::DoubleEndedIterator", "core::iter::ExactSizeIterator") or \
            (fn.get("trait") or "").endswith("Iterator"):
             # call on self: record as action with the current cursor state
@@ -227,12 +243,12 @@ class Eval:
                         # substitute the resolved value everywhere the gamma sits
                         for loc, x in list(Q.env.items()):
                             if x is val: Q.env[loc] = v
-                        idx = {"None": 0, "Some": 1}[v.variant]
+                        idx = {"None": 0, "Some": 1, "Continue": 0, "Break": 1}[v.variant]
                         tgt = dict((int(a), b) for a, b in t["targets"]).get(idx, t["otherwise"])
                         s.step(Q, tgt, depth + 1)
                     return
                 if isinstance(val, Adt):
-                    idx = {"None": 0, "Some": 1}[val.variant]
+                    idx = {"None": 0, "Some": 1, "Continue": 0, "Break": 1}[val.variant]
                     tgt = dict((int(a), b) for a, b in t["targets"]).get(idx, t["otherwise"])
                     return s.step(P, tgt, depth + 1)
                 raise Inconclusive("discriminant of %r" % (val,))
